@@ -129,6 +129,21 @@ CLAIMED = {
          "DynamicalMatrixGL internals.",
     technique="deductive verification: class invariant by symbolic execution of each method with ghost content tokens; path enumeration",
     design="DESIGN.md section 5 C15"),
+ "C05": dict(
+    text="Shortest-vector kernels phpy_set_smallest_vectors_dense / _sparse (c/phonopy.c) under contract with loop invariants: with a ghost arg-min function "
+         "(a minimum of a finite non-empty set exists) the code's running minimum is proved to be the minimum image length, the multiplicity is the number of "
+         "lattice images within symprec of it (recursive counting sum), the address is the sum of the multiplicities of the earlier pairs, and the fill pass "
+         "stores the image of every tying lattice point, in order, at address + rank, leaving every other row and the multiplicities untouched; since the rank "
+         "is strictly increasing on the ties (induction lemma) each window holds every tying image exactly once and nothing else. Sparse kernel: the same with "
+         "27 slots per pair, plus a memory-safety instance without any bound on the number of ties. Python glue (ShortestPairs._run_dense/_run_sparse, "
+         "Primitive._get_smallest_vectors; 3x3 numpy mini-model, exact rational identities): the arguments handed to the kernels are the 65 lattice points, "
+         "positions wrapped into [-1/2,1/2]^3, a metric matrix and a back-transformation that agree (the length minimised is the Cartesian length of the stored "
+         "vector), stored vector minus separation is an integer lattice combination, and the change to primitive coordinates keeps the Cartesian vector.",
+    note=TRUST + "NOT decided: that the 65 lattice points suffice for a Niggli-reduced basis (geometric lemma, unproven also in the source), spglib's Niggli reduction, "
+         "sparse_to_dense_svecs / dense_to_sparse_svecs. A-RINT: a 3x3 float matrix the code asserts to be within 1e-8 of its rounding is taken equal to it. sqrt is "
+         "uninterpreted (only equality of lengths computed from equal arguments is used). Finding E15 (sparse kernel wrote past its 27 slots) repaired by a fix: commit.",
+    technique="deductive verification: loop invariants over recursive counting sums with ghost arg-min, induction lemmas, z3 (E-matching) + sympy identities",
+    design="DESIGN.md section 5 C05"),
 }
 
 NA = {
